@@ -119,6 +119,39 @@ def map_output(res, f):
     return " ; ".join([parts[0]] + [" ".join(["V"] + [str(f(int(x))) for x in q.split()[1:]]) for q in parts[1:]])
 
 
+NARROW = {"N8": [0, 1, 2, 7, 8, 127, 128, 200, 253, 254, 255], "N16": [0, 1, 255, 256, 257, 32767, 32768, 65000, 65533, 65534, 65535]}
+
+
+def narrow_stream(c, exe, n):
+    """SpVecGF2<std::uint8_t> / <std::uint16_t>: the same histories under a strictly increasing renaming into the narrow type's range, always
+    including the type's maximum value (a coordinate that code using a sentinel or `max()` for 'exhausted' would confuse with no coordinate)"""
+    small, tags, imgs = [], [], []
+    for j in range(n):
+        K, D, ops = gen_history(c.rng, 25)
+        D = min(D, 8)
+        line = map_coords(case_line(K, D, ops), lambda x: x % D)
+        tag = "N8" if j % 2 == 0 else "N16"
+        pool = NARROW[tag]
+        im = sorted(c.rng.sample(pool[:-1], D - 1) + [pool[-1]]) if D >= 1 else []
+        small.append(line); tags.append(tag); imgs.append(im)
+    big = [tg + " " + map_coords(l, lambda x, im=im: im[x]) for l, im, tg in zip(small, imgs, tags)]
+    mo = lib.run_model("c17", small)
+    io = lib.run_lines([exe], big)
+    nb = 0
+    for l, b, im, m, i in zip(small, big, imgs, mo, io):
+        c.count(b, nontrivial(l, m), bucket="narrow-coordinate-type")
+        want = map_output(m, lambda x, im=im: im[x]) if m.startswith("O") else m
+        if i != want and nb < 3:
+            nb += 1
+            d = dense_eval(b.split(" ", 1)[1])
+            if i != d:
+                c.violation("SpVecGF2<%s> history: implementation differs from the dense GF(2) computation (impl: %s | dense: %s)" % ("uint8_t" if b.startswith("N8") else "uint16_t", i[:150], d[:150]),
+                            {"component": "c17", "case": b, "impl": i, "model_renamed": want, "dense_reference": d}, True)
+            else:
+                c.violation("correspondence c17 (model under a monotone renaming of coordinates vs SpVecGF2 over a narrow coordinate type) no longer checks, implementation agrees with the dense reference",
+                            {"component": "c17", "theorem_or_correspondence": "correspondence c17/narrow: extracted run_dump renamed vs harness/c17.cpp", "case": b, "impl": i, "model": want}, False)
+
+
 def big_stream(c, exe, n):
     """histories over huge coordinates: SpVecGF2 only compares coordinates, so a strictly increasing renaming of the
     coordinates must commute with every operation; the model runs on the small coordinates, the implementation on the
@@ -173,6 +206,7 @@ def check(tier, seed):
         for i, cs in enumerate(cases):
             c.count(cs, nontrivial(cs, mo[i]), bucket="ops<=10" if int(cs.split()[2]) <= 10 else "ops>10")
         big_stream(c, exe, 600 if tier == "quick" else 6000)
+        narrow_stream(c, exe, 600 if tier == "quick" else 6000)
         bad = lib.diff_lines(cases, mo, io)
         c.extra["corpus_cases"] = ncorp
         c.extra["disagreements_checked"] = len(bad)
@@ -193,7 +227,7 @@ def check(tier, seed):
                             {"component": "c17", "theorem_or_correspondence": "correspondence c17: extracted run_dump vs harness/c17.cpp", "case": l2, "impl": i2, "model": m2}, False)
     return c.finish(
         assumptions=["histories never read a moved-from vector before it is reassigned (unspecified in the dense semantics)",
-                     "coordinates fit size_t; U = std::size_t instantiation only", "large coordinates (up to 2^64-2) are run through the model under a strictly increasing renaming, which every operation commutes with (only order comparisons of coordinates are used)"],
+                     "coordinates fit the coordinate type; instantiations U = std::size_t, std::uint8_t, std::uint16_t", "large coordinates (up to 2^64-2) are run through the model under a strictly increasing renaming, which every operation commutes with (only order comparisons of coordinates are used)"],
         explanation="Theorem C17_histories_refine_dense proves the model equal to the dense computation for all histories; "
                     "this run ties the model to include/parmcb/spvecgf2.hpp by exact comparison of store contents and observer outputs.")
 
@@ -203,6 +237,13 @@ def replay(path):
     ok, log = lib.ensure_model()
     exe, err = lib.build_cpp(name="c17", srcs=["c17.cpp"])
     line = r["case"]
+    if "model_renamed" in r or line.split()[0] in ("N8", "N16"):      # huge or narrow coordinates: the model ran on the small pre-image; compare with the dense reference and the recorded renamed answer
+        i = lib.run_lines([exe], [line], par=1)[0]
+        d = dense_eval(line.split(" ", 1)[1] if line.split()[0] in ("N8", "N16") else line)
+        print("case :", line); print("impl :", i); print("dense:", d); print("model (renamed, recorded):", r.get("model_renamed", r.get("model")))
+        if i != d or (r.get("model_renamed") or r.get("model") or i) != i:
+            print("VIOLATION property=%s replay=%s" % (PID, path)); return 1
+        return 0
     m, i, d = lib.run_model("c17", [line], par=1)[0], lib.run_lines([exe], [line], par=1)[0], dense_eval(line)
     print("case :", line); print("model:", m); print("impl :", i); print("dense:", d)
     if i != d or m != i:
